@@ -43,9 +43,11 @@ def docx_walk_model(ctx, traces):
     if r.violated:
         ctx.v.violation(what="DocxWalk.tla: the modelled DOCX walk violates Fidelity on the specification "
                              "(model and Doc.tla disagree)", observed=r.output[-1500:])
-    for dv in ("Docx!TabBreakDropped", "Docx!BlockSdtLost", "Docx!NestedTableRepeated", "Docx!TextboxParagraphsGlued"):
-        rs = run_tlc("DocxWalkCheck", cfg.replace("WalkDev = {}", f'WalkDev = {{"{dv}"}}'), scratch=ctx.scratch,
-                     env={"DOCS_FILE": str(docs_file)}, expect_fail=True)
+    from ..tlc import run_tlc_many
+    wdevs = ("Docx!TabBreakDropped", "Docx!BlockSdtLost", "Docx!NestedTableRepeated", "Docx!TextboxParagraphsGlued")
+    wres = run_tlc_many([("DocxWalkCheck", cfg.replace("WalkDev = {}", f'WalkDev = {{"{dv}"}}'),
+                          dict(scratch=ctx.scratch, env={"DOCS_FILE": str(docs_file)}, expect_fail=True, workers=4)) for dv in wdevs])
+    for dv, rs in zip(wdevs, wres):
         ctx.ev.tlc(f"DocxWalkCheck sensitivity: pre-fix step {dv} must violate Fidelity", rs, note="expected violation")
         if not rs.violated:
             raise MachineryError(f"sensitivity run for {dv} did not fail")
@@ -142,18 +144,23 @@ def rtf_strip_model(ctx):
     invs = "".join(f"INVARIANT {i}\n" for i in ("Inv_StepAgreesWithFunction", "Inv_HiddenNeverShown", "Inv_VisibleOnceInOrder",
                                                   "Inv_SeparatorsFaithful", "Inv_PagesPartition", "Inv_NothingInvented"))
     cfg = f"SPECIFICATION Spec\nCONSTANTS WalkDev = {{}}\n Rich = {rich}\n{invs}PROPERTY Prop_Terminates\n"
-    r = run_tlc("RtfStrip", cfg, scratch=ctx.scratch, expect_fail=True, heap="8g", workers=16, timeout=3000)
+    from ..tlc import run_tlc_many
+    devs = ("Rtf!NestedDestinationEndsSkip", "Rtf!RawNewlineIsText", "Rtf!UControlWordLeaks")
+    dump = ctx.scratch / "rtfgen.dump"
+    res = run_tlc_many(
+        [("RtfStrip", cfg, dict(scratch=ctx.scratch, expect_fail=True, heap="8g", workers=8, timeout=3000))]
+        + [("RtfStrip", cfg.replace("WalkDev = {}", f'WalkDev = {{"{dv}"}}').replace(f"Rich = {rich}", "Rich = FALSE"),
+            dict(scratch=ctx.scratch, expect_fail=True, heap="4g", workers=4)) for dv in devs]
+        + [("RtfStrip", f"SPECIFICATION GenSpec\nCONSTANTS WalkDev = {{}}\n Rich = {rich}\n",
+            dict(scratch=ctx.scratch, dump=dump, heap="4g", workers=4))], max_parallel=5)
+    r, rg = res[0], res[-1]
     ctx.ev.tlc("RtfStrip: hidden destinations never shown, visible words once and in order, separators faithful, pages partition", r)
     if r.violated:
         ctx.v.violation(what=f"RtfStrip.tla: the strict stripper model violates {r.violated}", observed=r.output[-1500:])
-    for dv in ("Rtf!NestedDestinationEndsSkip", "Rtf!RawNewlineIsText", "Rtf!UControlWordLeaks"):
-        rs = run_tlc("RtfStrip", cfg.replace("WalkDev = {}", f'WalkDev = {{"{dv}"}}').replace(f"Rich = {rich}", "Rich = FALSE"),
-                     scratch=ctx.scratch, expect_fail=True, heap="8g")
+    for dv, rs in zip(devs, res[1:-1]):
         ctx.ev.tlc(f"RtfStrip sensitivity: step {dv} must violate a theorem", rs, note="expected violation")
         if not rs.violated:
             raise MachineryError(f"RtfStrip sensitivity run for {dv} did not fail")
-    dump = ctx.scratch / "rtfgen.dump"
-    rg = run_tlc("RtfStrip", f"SPECIFICATION GenSpec\nCONSTANTS WalkDev = {{}}\n Rich = {rich}\n", scratch=ctx.scratch, dump=dump, heap="8g")
     ctx.ev.tlc("RtfStrip GenSpec: token streams", rg)
     streams = sorted((from_tla(st["toks"]) for st in iter_dump(dump)), key=lambda g: json.dumps(g))
     if len(streams) != rg.distinct:
